@@ -259,6 +259,23 @@ func Format(cfg *Config, format string, args []string) (string, int, error) {
 	return sb.String(), consumed, err
 }
 
+// padInto writes s for a %s, %c or %b directive whose flags and width are in
+// fmts. Like C's printf, and unlike Go's, the width counts bytes and the
+// padding is always made of spaces.
+func padInto(sb *strings.Builder, fmts []byte, s string) {
+	spec := string(fmts[1:])
+	left := strings.HasPrefix(spec, "-")
+	width, _ := strconv.Atoi(strings.TrimLeft(spec, "+- "))
+	pad := strings.Repeat(" ", max(width-len(s), 0))
+	if left {
+		sb.WriteString(s)
+		sb.WriteString(pad)
+	} else {
+		sb.WriteString(pad)
+		sb.WriteString(s)
+	}
+}
+
 func formatInto(sb *strings.Builder, format string, args []string) (int, error) {
 	var fmts []byte
 	initialArgs := len(args)
@@ -362,7 +379,7 @@ func formatInto(sb *strings.Builder, format string, args []string) (int, error) 
 						b = arg[0]
 					}
 				}
-				sb.WriteByte(b)
+				padInto(sb, fmts, string([]byte{b}))
 				fmts = nil
 			case '+', '-', ' ':
 				if len(fmts) > 1 {
@@ -381,22 +398,28 @@ func formatInto(sb *strings.Builder, format string, args []string) (int, error) 
 					// Passing in nil for args ensures that % format
 					// strings aren't processed; only escape sequences
 					// will be handled.
-					_, err := formatInto(sb, arg, nil)
+					var expanded strings.Builder
+					_, err := formatInto(&expanded, arg, nil)
 					if err != nil {
 						return 0, err
 					}
+					padInto(sb, fmts, expanded.String())
 				} else if c != 's' {
 					n, _ := strconv.ParseInt(arg, 0, 0)
 					if c == 'i' || c == 'd' {
 						farg = int(n)
 					} else {
 						farg = uint(n)
+						// The sign flags only apply to signed conversions.
+						if len(fmts) > 1 && (fmts[1] == '+' || fmts[1] == ' ') {
+							fmts = append(fmts[:1], fmts[2:]...)
+						}
 					}
 					if c == 'i' || c == 'u' {
 						c = 'd'
 					}
 				} else {
-					farg = arg
+					padInto(sb, fmts, arg)
 				}
 				if farg != nil {
 					fmts = append(fmts, c)
